@@ -81,7 +81,7 @@ func init() {
 
 // stopKinds is the stop-cause alphabet of C05 / C06.
 var stopKinds = []string{"none", "cancel_out", "cancel_gate", "cancel_in", "cancel_log", "handler_err_cancel", "deadline", "eof", "err", "fin", "rst", "short", "outofseq",
-	"handler_err", "mapper_err", "mapper_cols", "unsupported", "invalid", "undecodable", "refuse", "err_handshake", "err_query", "cancel_handshake", "cancel_dial"}
+	"handler_err", "mapper_err", "mapper_cols", "unsupported", "invalid", "undecodable", "refuse", "err_handshake", "err_query", "cancel_handshake", "cancel_query", "cancel_dial"}
 
 func stopHistOpt() gen.HistOpt {
 	o := gen.DefaultHistOpt(limits(), false)
@@ -121,6 +121,8 @@ func drawStop(rt *rapid.T, o gen.HistOpt, kinds []string) *StopCase {
 		c.Fault = Fault{Kind: k}
 	case "deadline":
 		c.Fault = Fault{Kind: k, At: rapid.IntRange(0, 20).Draw(rt, "deadline_ticks")}
+	case "cancel_query":
+		c.Fault = Fault{Kind: k, At: rapid.IntRange(0, 30).Draw(rt, "answer_delay_ticks")}
 	default:
 		c.Fault = drawFault(rt, []string{k}, nsteps, ntx)
 		if isMasterFault(k) && rapid.IntRange(0, 2).Draw(rt, "after_first_commit") != 0 {
@@ -353,6 +355,8 @@ func enumStops(f func(*StopCase) bool, kinds []string) int {
 				points = []int{1}
 			case k == "deadline":
 				points = []int{0, 1, 2, 4, 8}
+			case k == "cancel_query":
+				points = []int{0, 1, 5, 20}
 			default:
 				points = []int{0}
 			}
